@@ -184,7 +184,8 @@ package models
 //@   requires wfStore(s) && ec != nil
 //@   let T = ec.EntityComponentTypeId
 //@   let E = ec.EntityId
-//@   modifies contents(s.entityComponents), contents(s.entityComponents[ec.EntityComponentTypeId])
+//@   modifies contents(s.entityComponents), contents(s.entityComponents[ec.EntityComponentTypeId]) if ec.EntityComponentTypeId in s.entityComponents
+//@   ensures {C03} forall t: uint32 :: t in s.entityComponents ==> (old(t in s.entityComponents) && s.entityComponents[t] == old(s.entityComponents[t])) || fresh(s.entityComponents[t])
 //@   allocates
 //@   ensures wfStore(s)
 //@   ensures forall t: uint32, e: uint32 :: (t != T || e != E) ==> (hasComp(s, t, e) <==> old(hasComp(s, t, e))) && (hasComp(s, t, e) ==> compAt(s, t, e) == old(compAt(s, t, e)))
@@ -203,7 +204,7 @@ package models
 //@ func (*models.EntityComponentStore).Delete
 //@   property C12
 //@   requires wfStore(s)
-//@   modifies contents(s.entityComponents[entityComponentTypeID])
+//@   modifies contents(s.entityComponents[entityComponentTypeID]) if entityComponentTypeID in s.entityComponents
 //@   ensures wfStore(s)
 //@   ensures result <==> old(hasComp(s, entityComponentTypeID, entityID))
 //@   ensures !hasComp(s, entityComponentTypeID, entityID)
@@ -214,7 +215,7 @@ package models
 //@   requires wfStore(s) && ec != nil
 //@   let T = ec.EntityComponentTypeId
 //@   let E = ec.EntityId
-//@   modifies contents(s.entityComponents[ec.EntityComponentTypeId])
+//@   modifies contents(s.entityComponents[ec.EntityComponentTypeId]) if ec.EntityComponentTypeId in s.entityComponents
 //@   ensures wfStore(s)
 //@   ensures forall t: uint32, e: uint32 :: (hasComp(s, t, e) <==> old(hasComp(s, t, e))) && ((t != T || e != E) && hasComp(s, t, e) ==> compAt(s, t, e) == old(compAt(s, t, e)))
 //@   behaviour absent:
@@ -255,7 +256,8 @@ package models
 //@ func (*models.EntityComponentStore).Subscribe
 //@   property C13
 //@   requires wfStore(s)
-//@   modifies contents(s.subscriptions), contents(s.subscriptions[entityComponentTypeID])
+//@   modifies contents(s.subscriptions), contents(s.subscriptions[entityComponentTypeID]) if entityComponentTypeID in s.subscriptions
+//@   ensures {C03} forall t: uint32 :: t in s.subscriptions ==> (old(t in s.subscriptions) && s.subscriptions[t] == old(s.subscriptions[t])) || fresh(s.subscriptions[t])
 //@   allocates
 //@   ensures wfStore(s)
 //@   ensures forall t: uint32, p: uint32 :: (t != entityComponentTypeID || p != participantID) ==> (subscribed(s, t, p) <==> old(subscribed(s, t, p)))
@@ -271,7 +273,7 @@ package models
 //@ func (*models.EntityComponentStore).Unsubscribe
 //@   property C13
 //@   requires wfStore(s)
-//@   modifies contents(s.subscriptions[entityComponentTypeID])
+//@   modifies contents(s.subscriptions[entityComponentTypeID]) if entityComponentTypeID in s.subscriptions
 //@   ensures wfStore(s)
 //@   ensures {C13} !subscribed(s, entityComponentTypeID, participantID)
 //@   ensures forall t: uint32, p: uint32 :: (t != entityComponentTypeID || p != participantID) ==> (subscribed(s, t, p) <==> old(subscribed(s, t, p)))
